@@ -185,9 +185,36 @@ CHECKS = {
         require=["scenarios", "quiescent_snapshots", "scenarios_reaching_their_schedule_point", "snapshots_with_blocked_callers",
                  "reached/after-failed-attempt-1", "reached/queue.after_push", "reached/queue.before_push", "reached/loser-retry",
                  "reached/handoff-vs-cancel", "reached/handoff-vs-timeout", "reached/asleep"],
-        rule="scenario grid = limiter kind (7) x release point (6-9) x capacity {1,2} x waiters {1,2,3} x outcome (3); quick runs the grid once, thorough 200 "
+        rule="scenario grid = limiter kind (7) x release point (6-9) x capacity {1,2} x waiters {1,2,3} x outcome (3); quick runs the grid once, thorough 1500 "
              "times with PRNG pause budgets / strategy kind / targeted waiter; non-trivial = schedule point reached and some waiter granted; distinct = distinct scenario tuples.",
         assumptions=COMMON_ASSUME + ["sync.Cond.Wait, channel ops and select are durably blocking in a bubble, sync.Mutex is not (a caller waiting for a mutex counts as running)",
                                      "pauses at schedule points are bounded yields, never waits: they cannot deadlock an implementation that holds a lock across the window"],
+    ),
+    "C11": dict(
+        pkg="c11", race=False, shards=(4, 16), timeout_s=(600, 3000),
+        technique="grant-order monitor in a synctest bubble: arrival order fixed by quiescence between arrivals, observed grant vs FIFO/LIFO model of still-waiting callers",
+        level_text="Capacity 1 is held; waiters arrive one at a time with synctest.Wait() between arrivals (arrival order is a fact); PRNG interleaves "
+                   "arrivals, cancellations (eviction on), staggered time-outs and releases; after each release exactly one waiter must be granted and it "
+                   "must be the oldest (FIFO) / newest (LIFO) still waiting. Every constructor: FromConfig{fifo,lifo,default}, WithDefaults, the "
+                   "deprecated Fifo/Lifo constructors (+WithDefaults), FixedPool and Pool with OrderingFIFO/LIFO. Exploration over seeded scenarios.",
+        require=["grants_checked", "grants_with_a_choice", "scenarios/fifo", "scenarios/lifo", "constructor/WithDefaults",
+                 "constructor/NewLifoBlockingLimiterWithDefaults", "constructor/FixedPool{OrderingLIFO}", "constructor/Pool{OrderingFIFO}"],
+        rule="scenario = (constructor (15), 6-20 ops: arrival / cancel / time-out of the oldest / release); non-trivial = at least two grants; distinct = distinct (constructor, trace).",
+        assumptions=COMMON_ASSUME + ["time-outs and releases are never placed at the same virtual instant here (that race is C10/C13 territory)"],
+    ),
+    "C13": dict(
+        pkg="c13", race=False, shards=(4, 16), timeout_s=(600, 3000),
+        technique="exact-instant monitor on a synctest virtual clock: return instant of every blocked Acquire vs its bound, busy count after refusals",
+        level_text="For blocking (timeout 0/T), deadline and queue (FIFO/LIFO, eviction on/off) limiters with capacity exhausted and no release, the "
+                   "blocked call must return refused at exactly its bound (backlog timeout, deadline, cancellation instant; cancellation ignored by the "
+                   "queue limiter without eviction) - not earlier, not later - with cancellation placed before / at / after arrival and at / after the "
+                   "bound, arrivals before / at / after the deadline; calls for which no bound applies must still be blocked; already-cancelled "
+                   "contexts and passed deadlines are refused immediately even with capacity free and leave the busy count unchanged. Virtual time is "
+                   "exact, so equality (now == deadline) is exercised. Exploration over a grid x PRNG durations.",
+        require=["scenarios", "exact_return_instants_checked", "refused_calls_hold_nothing_checks", "calls_correctly_still_blocked",
+                 "calls_exactly_at_the_deadline", "family/queue", "family/deadline", "family/blocking"],
+        rule="grid = limiter kind (7) x cancel placement (6) x arrival placement (3, deadline only) x capacity exhausted/free, each with PRNG timeout "
+             "(1ms-1h), arrival and cancel instants; quick 5 per cell, thorough 2000; all cases non-trivial; distinct = distinct (cell, instants).",
+        assumptions=COMMON_ASSUME + ["a release at exactly the bound is not judged here (either verdict is legal; conservation is C02)"],
     ),
 }
